@@ -242,7 +242,17 @@ impl<'a> Rules<'a> {
         if col.method != "collect" { return None; }
         let syn::Expr::MethodCall(map) = &*col.receiver else { return None };
         if map.method != "map" || map.args.len() != 1 { return None; }
-        let syn::Expr::Closure(cl) = &map.args[0] else { return None };
+        // `.map(path::to::f)` is `.map(|vx_x| path::to::f(vx_x))` (a function item used as the mapping)
+        let fn_closure: syn::ExprClosure;
+        let cl: &syn::ExprClosure = match &map.args[0] {
+            syn::Expr::Closure(cl) => cl,
+            syn::Expr::Path(p) if p.path.segments.len() >= 2 => {
+                let syn::Expr::Closure(c) = syn::parse_quote!(|vx_x| #p(vx_x)) else { return None };
+                fn_closure = c;
+                &fn_closure
+            }
+            _ => return None,
+        };
         if cl.inputs.len() != 1 { return None; }
         // receiver: A.iter()  or  A.iter().zip(B)
         let (a_recv, b_recv): (syn::Expr, Option<syn::Expr>) = match &*map.receiver {
